@@ -162,6 +162,24 @@ def gen(rng, ode=None, k=None, m=None):
     for nm, co, c0 in cons:
         vs.append('<variable name="%s" units="dimensionless"/>' % nm)
         eqs.append('<apply><eq/><ci>%s</ci><apply><plus/>%s%s</apply></apply>' % (nm, lin(co, names), cn(c0)))
+    block2 = None
+    if rng.random() < 0.4:
+        # a second, independent NLA system (its equations end up interleaved with those of the first one)
+        k2 = rng.randint(2, 3)
+        for _ in range(100):
+            A2 = [[rng.choice([1, 1, 2, 3, -1, -2]) for _ in range(k2)] for _ in range(k2)]
+            if det([[Fr(x) for x in r] for r in A2]) != 0:
+                break
+        else:
+            A2 = None
+        if A2:
+            names2 = ['r%d' % i for i in range(k2)]
+            rhs2 = [rng.choice([1, 2, 6, 9, -3, 4]) for _ in range(k2)]
+            for nm in names2:
+                vs.append('<variable name="%s" units="dimensionless" initial_value="%s"/>' % (nm, rng.choice(['1', '2', '0.5'])))
+            for j in range(k2):
+                eqs.append('<apply><eq/>%s%s</apply>' % (lin(A2[j], names2), cn(rhs2[j])))
+            block2 = (A2, names2, rhs2)
     rng.shuffle(eqs)
     rng.shuffle(vs)
     text = ('<?xml version="1.0" encoding="UTF-8"?>\n<model xmlns="http://www.cellml.org/cellml/2.0#" xmlns:cellml="http://www.cellml.org/cellml/2.0#" name="m">\n'
@@ -169,7 +187,7 @@ def gen(rng, ode=None, k=None, m=None):
     # what the callback returns: ea + eb*voi
     extf = {names[i]: (rng.choice([1, 2, -1, 0.5, 3]), rng.choice([1, -1, 2, 0.25]) if ode else 0) for i in ext}
     return dict(text=text, ode=ode, k=k, m=m, A=A, names=names, ext=[names[i] for i in ext], unk=[names[i] for i in unk], rhs=rhs, consts=consts,
-                helpers=helpers, cons=cons, rate=rate, extf=extf)
+                helpers=helpers, cons=cons, rate=rate, extf=extf, block2=block2)
 
 
 def expected(d, s, t):
@@ -193,6 +211,10 @@ def expected(d, s, t):
         val[names[i]] = x
     for nm, co, c0 in d['cons']:
         val[nm] = sum(Fr(c) * val[n_] for c, n_ in zip(co, names)) + Fr(c0)
+    if d.get('block2'):
+        A2, names2, rhs2 = d['block2']
+        for nm, x in zip(names2, solve(A2, rhs2)):
+            val[nm] = x
     out = {k_: float(v) for k_, v in val.items()}
     if d['ode']:
         out['s'] = float(s)
